@@ -286,8 +286,12 @@ class Gen:
 
     def line(self, ints=None):
         tags = [self.r.choice(["t1", "mood:dark", "x"])] if self.p("tags") else []
-        return {"k": "line", "parts": self.parts(ints), "glue": self.p("glue"), "tags": tags,
-                "comment": ("note " + self.word()) if self.p("comments") else None}
+        ln = {"k": "line", "parts": self.parts(ints), "glue": self.p("glue"), "tags": tags,
+              "comment": ("note " + self.word()) if self.p("comments") else None}
+        if ln["glue"] and not tags and self.r.random() < 0.3:
+            # the text itself ends in the characters the glue operator is made of
+            ln["parts"] = ln["parts"] + [("t", self.r.choice(["</b>", " ->", "<", ">>", " <<", "a<b>"]))]
+        return ln
 
     def args_for(self, target, ints=None):
         """argument text for a call of `target`, valid by Python call rules"""
